@@ -217,3 +217,22 @@ PROPS["C07"] = dict(
     exhaustive_axes="8 torsion points x aliases and prime+T for each T through all point predicates",
     assumptions=ASSUME_COMMON + ["add/sub with non-canonical aliases: acceptance is unspecified, only the value of an accepted result is asserted"],
 )
+
+PROPS["C08"] = dict(
+    name="c08", sources=["props/c08.cpp"], engine="rapidcheck + enumerator", libs=["-lrapidcheck"], cflags=["-O2"],
+    builds=[("asan", "native")],
+    builds_thorough=[("asan", "native"), ("asan", "noasm"), ("asan", "portable")],
+    level="exploration",
+    rule=("Raw Argon2i/Argon2id through crypto_pwhash and the variant-specific functions: memory 8..1024 KiB incl. every residue of m mod 4 and the reference-index edge cases (m = 8,9,..,17,19,23,24,31..33,..), 1..4 passes, "
+          "output lengths {16,17,31..33,63..66,127..129,200} and every length 16..130, passwords 0..200 bytes incl. embedded NUL, sub-KiB memlimit remainders, under every block-fill backend mask "
+          "{AVX-512F, AVX2, SSSE3, ref}; scrypt through _ll (N=2^1..2^10, r in {1,2,3,8}, p=1..3) and through the opslimit/memlimit front end, SSE and non-SSE; compared with RFC 9106 / RFC 7914 models. "
+          "Limits: out-of-range output length / opslimit / memlimit / algorithm return -1 with EINVAL or EFBIG. String API: strings produced with a scripted salt equal the model's standard encoding, are "
+          "NUL-terminated and zero-filled within STRBYTES, verify with the same password, fail with another, are refused by the other variant's verifier; needs_rehash is 0 for equal (t, m=memlimit/1024), "
+          "1 for each changed parameter. Foreign and mutated strings (rapidcheck, 16000, shrinking): model-built strings with p=1..4 lanes, other salt/hash lengths, wrong hash, then one of 15 mutations "
+          "(substitute / insert / delete / truncate at any position with characters incl. high bytes, leading zeros, '+', padding, dropped field, version 16/20, swapped prefix, reordered parameters, trailing bits); "
+          "plus a deterministic sweep truncating and substituting at every position of one argon2i, one argon2id and one $7$ string. Oracle: str_verify == model verdict, needs_rehash in {0,1,-1} exactly per the "
+          "strict PHC parser. A cost guard (pre-parse of m/t/p, N/r/p) skips and counts strings that would cost more than 2 MiB / 6 passes. Non-trivial = memory >= 16 KiB or a string case; distinct = (parameters | string text, password)."),
+    exhaustive_axes="every truncation length and 15 substitutions at every position of three reference strings; output lengths 16..130",
+    assumptions=ASSUME_COMMON + ["scrypt opslimit/memlimit below the documented minima are not rejected by design (opslimit is clamped; pinned tests use small memlimits), so only outlen is range-checked there",
+                                 "for $7$ strings only structural malformation (length, parameter characters) must give needs_rehash == -1; salt/hash characters are not validated by the format"],
+)
